@@ -22,9 +22,12 @@ def run(c):
     c.tlc_must_pass("SopCommitMC", c.pick("SopCommitMC.cfg", "SopCommitMC3.cfg"), workers=8, timeout=c.pick(300, 1500))
     total = 0
     classes = collections.Counter()
-    variants = [("gate", 2, 4, False), ("gate", 4, 6, False), ("gate", 2, 0, True), ("free", 4, 6, False), ("free", 2, 0, True)]
+    variants = [("gate", 2, 4, False), ("gate", 4, 6, False), ("gate", 2, 0, True), ("free", 4, 6, False), ("free", 2, 0, True),
+                ("gate", 4, 14, False), ("gate", 4, 6, False)]
     for vi, (sched, slot, keys, empty) in enumerate(variants):
         conc = dict(workload="disjoint", txns=(2 if empty else 2 + (vi % 2)), keys=keys, slot=slot, sched=sched, max_step=8, empty=empty)
+        if vi >= 5:   # one writer adds a key, another adds eight neighbours (splits): the later committer merges into a changed structure
+            conc.update(workload="split", txns=2 + (vi % 2), max_step=12)
         traces, _ = _conc.run_conc(c, binp, "d%d%s" % (vi, sched), c.pick(6, 60), conc, timeout=3000)
         hists, outs = [], []
         for n, h, evs in traces:
@@ -32,6 +35,16 @@ def run(c):
             hists.append(hh); outs.append(out)
         bad = conclib.serial_check(c, hists)
         total += len(hists)
+        # a traversal of the store must be in key order (an item merged into the wrong leaf shows up out of place)
+        for i, (n, h, evs) in enumerate(traces):
+            for e in evs:
+                ks = [x["k"] for x in (e.get("items") or [])] if e.get("ev") == "Observe" else []
+                if ks != sorted(ks) or (e.get("ev") == "Observe" and e.get("exists") and e.get("count") != len(ks)):
+                    sig = "disjoint|%s|slot=%d|empty=%s|traversal-%s" % (sched, slot, empty, "out-of-order" if ks != sorted(ks) else "count-differs")
+                    classes[sig] += 1
+                    c.report(sig, "disjoint writers: traversal after the commits returns keys %s, count %s" % (ks, e.get("count")),
+                             dict(trace=n, schedule=h.get("sched"), program=h.get("program"), events=evs))
+                    break
         for i in sorted(bad):
             n, h, evs = traces[i]
             failed = sorted(t for t, o in outs[i].items() if o != "committed")
